@@ -10,6 +10,10 @@ pub static C15: C15Prop = C15Prop;
 pub struct CursorFacts {
     pub inside_moved: bool,
     pub aligned: bool,
+    /// cursors for which clause 3 (same offset in the same unchanged token) was asserted
+    pub clause3: u32,
+    /// cursors beyond the end of the input (clause 4)
+    pub clause4: u32,
 }
 
 /// The C15 oracle on (input, cfg, cursors).
@@ -72,6 +76,8 @@ pub fn check_cursor_results(
     let to = refscan::scan(&out);
     let aligned = ti.len() == to.len() && ti.iter().zip(&to).all(|(a, b)| a.kind == b.kind);
     let mut inside_moved = false;
+    let mut clause3 = 0u32;
+    let clause4 = cursors.iter().filter(|c| **c as usize > input.len()).count() as u32;
     if aligned {
         for (c, r) in cursors.iter().zip(&res) {
             let c = *c as usize;
@@ -111,13 +117,14 @@ pub fn check_cursor_results(
                 .fact(format!("kind:{:?}", ti[j].kind))
                 .fact(if ti[j].text(input).contains('\n') { "multiline-token" } else { "single-line-token" }));
             }
+            clause3 += 1;
             let j = candidates[0];
             if c > ti[j].start && c < ti[j].end && r != c {
                 inside_moved = true;
             }
         }
     }
-    Ok(CursorFacts { inside_moved, aligned })
+    Ok(CursorFacts { inside_moved, aligned, clause3, clause4 })
 }
 
 impl Prop for C15Prop {
@@ -230,6 +237,8 @@ impl Prop for C15Prop {
                 ctx.class_if(f.aligned, "token-lists-line-up");
                 ctx.class_if(!f.aligned, "token-lists-differ(skipped clause 3)");
                 ctx.class_if(f.inside_moved, "cursor-inside-token-moved");
+                ctx.class_if(f.clause3 > 0, "asserted:same-offset-in-unchanged-token");
+                ctx.class_if(f.clause4 > 0, "asserted:past-end-maps-to-end");
                 Outcome::Pass { nontrivial: f.inside_moved }
             }
         }
